@@ -21,41 +21,60 @@
       most once (a second Put with the same dye is silently DROPPED by the code) and only while it has
       no child.
 
-  (b) For the explicit heap model `LemoModel.CowTrie`/`LemoModel.UTree` of the code AS IT IS (nodes,
-      children slices over backing arrays with capacity, Go `append`): the property is FALSE.
+  (b) LEGACY (code before fix fb6e64c, `putG false`; no longer what /repo runs — historical witnesses, not registered as
+      property theorems): for the heap model of the OLD put the property is FALSE.
         heap_sharing_invariant_refuted   — after a split-case `put` two nodes own one backing array
         heap_get_is_pure_refuted         — a read through the parent's view makes the child LOSE a key
         heap_persist_refuted             — … and a read through the child's view makes the parent's
                                            Collect(height) miss an account it wrote (wrong persisted state)
-      by concrete witnesses (kernel evaluation).  The same witnesses on `putFixed` (split case copies
-      the slice) behave correctly (`example`s, tests only).  Universal facts about the mechanism:
-        sliceInsert_in_place (an in-place `insert` rewrites the shared array under every other slice),
-        copySlice_fresh      (the repaired split case owns a new array that no old slice can reach).
-      For the OLD `put` no refinement theorem exists (it is false).
+      by concrete witnesses (kernel evaluation).  The same witnesses on the repaired put behave correctly (`example`s).
+      Mechanism facts: sliceInsert_in_place, copySlice_fresh.
 
   (c) For the heap model with the REPAIRED put (`putG true` = `putTopFixed`, what /repo runs since fb6e64c: the
-      split case uses child.Clone()): the universal refinement heap model ⇒ abstract machine, section (c) below.
+      split case uses child.Clone()): the universal refinement heap model ⇒ abstract machine.
         heap_inv_init, heap_inv_step      — the invariant `HRel` (memory ownership `HOk`: every backing array is
                                             referenced by at most one node; + `Rel`: radix well-formedness for
-                                            fixed-length keys, ghost reach sets closed under children, "a block that
-                                            is a leaf owns the nodes dyed with its height that it can see", every
-                                            root's lookups = the abstract table) holds initially and is preserved by
-                                            SetBlock, Put (`putTopFixed`), Get (`getTop` incl. the in-place read-through
-                                            `insert`) and the stabilisation step; no operation panics or gets stuck
+                                            fixed-length keys (sorted children, terminal nodes at full depth carrying
+                                            their key, dyes not increasing downwards), ghost reach sets closed under
+                                            children, "a block that is a leaf owns the nodes dyed with its height that
+                                            it can see", every root's lookups = the abstract table) holds initially and
+                                            is preserved by SetBlock, Put (`putTopFixed`), Get (`getTop` incl. the
+                                            in-place read-through `insert`) and the stabilisation step; no operation
+                                            panics or gets stuck
         heap_view_refines                 — under `HRel` the view of every label through the heap is `specView`
         heap_put_isolated                 — after a Put the writer reads its value, every other (label, key) is unchanged
         heap_get_is_pure                  — a Get returns `specView` and changes no view of any label for any key,
                                             although its read-through insert mutates shared nodes in place
         heap_stable_views                 — the stabilisation step keeps the survivors' views; abstract persisted = view(l)
-                                            (the heap-side Collect + batch write: section (d), utree_setStable)
-        heap_run_refines                  — induction over arbitrary operation sequences from the initial state
-        CowHeapL.setBlock_is_hSetBlock, putAcct_is_hPut, getAcct_is_hGet (Lemmas/CowHeapUTree.lean)
-                                          — `setBlock`, `putAcct true`, `getAcct` of the DRIVER's model `LemoModel.UTree`
-                                            are exactly these heap-level operations (same heap, same roots)
-      Lemma files: Lemmas/CowHeap*.lean (logical heap machine, array-level simulation, local analysis, insert, put,
-      multi-root relation).  NOT linked by proof: `collected` (Collect on the heap = entries dyed h of the table) and
-      the `walk`-based pruning / label bookkeeping of `LemoModel.UTree` — in (c) the set of surviving blocks, the
-      guards, the writer's height and the persisted values are taken from the abstract machine.
+        heap_run_refines                  — induction over operation sequences of the auxiliary machine `hstep` (guards,
+                                            writer height, persisted value and survivor set taken from the abstract
+                                            state; out-of-guard Puts are skipped) — superseded by (d)
+        CowHeapL.rel_collect              — `Collect(height)` on a block's trie (the recursive walk through nodes dyed
+                                            `height`, with the model's fuel) = the entries of its table dyed `height`
+
+  (d) THE MACHINE THE DRIVER EXECUTES (`LemoModel.UTree`: `openDb`, `setBlock`, `putAcct true`, `getAcct`, `setStable`,
+      `reopen` — what `Driver/C09.lean` runs and the correspondence ties to Go) refines the abstract machine:
+        utree_inv_open, utree_inv_step, utree_run_refines
+                                          — `URel u a` (HRel for the heap/roots carried by `u` + same stable block, labels,
+                                            heights, parents, order, disk) holds after `open` with a stable block and
+                                            after every restart, and is preserved by every driver step: the model's OWN
+                                            SetBlock acceptance implies `aSetBlock`'s; Put under the usage guard stated
+                                            on the driver's state (`PutGuardU`: unconfirmed, no child yet, own Collect
+                                            does not contain the account) — an explicit hypothesis of the run theorem
+                                            (`GuardedU`), not a silent no-op; Get through any live or committed label
+                                            (other labels: panic in Go and model, state unchanged); SetStableBlock of ANY
+                                            depth (`pathTo` + per block `collectTop` on the heap + batch write + `walk`
+                                            pruning = the iterated abstract step)
+        utree_view_refines                — `peekAcct` (Find, else disk) through any such label = `specView`
+        utree_setStable, stable_chain_exact
+                                          — multi-level stabilisation: stable block = l, survivors read what they read
+                                            before the call, persisted accounts (heap Collect + batch write, iterated) =
+                                            the view l had before the call
+      NOT covered by (d): the genesis bootstrap (`stable = none`: blocks of height 0, dye 0 = the cache dye; the abstract
+      machine starts with a stable block), Put through a committed label, Puts outside `PutGuardU` (late writes of a
+      block that already has children: Go mutates nodes shared with the children in place — no theorem, and the
+      harness oracle is off for those 'wild' cases), `anc`/`iterate`/`isExist` (tree queries, correspondence only),
+      the order of the dropped-block list.  Lemma files: Lemmas/CowHeap*.lean.
 -/
 import LemoProofs.Lemmas.CowSpecPrune
 import LemoProofs.Lemmas.CowHeapTop
@@ -93,7 +112,9 @@ theorem inv_step {s : ASt} (hi : CInv s) (op : Op) : CInv (stepOp s op) := by
     | some s' => exact inv_stable hi hs
 
 /-- the invariant holds in every state reachable by any sequence of operations (any tree shape,
-    siblings at equal height, any interleaving of reads/cache placements, writes, stabilisations) -/
+    siblings at equal height, any interleaving of reads/cache placements, guarded writes, stabilisations of a child of the
+    stable block).  NOTE: `stepOp` SKIPS operations outside the guards (`aPut`: live block, no child yet, key not yet
+    written; `aStable`: child of the stable block) — "any sequence" says nothing about late/duplicate Puts. -/
 theorem inv_reachable (sl sh : Nat) (disk : Nat → Option Nat) (ops : List Op) :
     CInv (run (init sl sh disk) ops) := by
   unfold run
@@ -251,7 +272,7 @@ example : ∃ s', aPut demo 3 8 9 = some s' := ⟨_, rfl⟩
 example : ∃ s', aStable demo 1 = some s' := ⟨_, rfl⟩
 example : CInv demo := inv_reachable _ _ _ _
 
-/-! ## (b) the heap model of the code as it is: refutation by concrete witnesses -/
+/-! ## (b) LEGACY: the heap model of the code BEFORE fix fb6e64c (`putG false`): refutation by concrete witnesses -/
 
 section Heap
 open LemoModel.CowTrie LemoModel.UTree
@@ -293,10 +314,10 @@ def afterRead (fixed : Bool) (reader : Nat) : St :=
   | .ok (s, _) => s
   | _ => witness fixed
 
-/-- **refutation of the sharing invariant** on the model of the code as it is -/
+/-- **refutation of the sharing invariant** on the model of the code before fix fb6e64c -/
 theorem heap_sharing_invariant_refuted : arraysOwned (witness false).heap = false := by decide
 
-/-- **refutation of `get_is_pure` / view isolation** on the model of the code as it is: block 2 sees the
+/-- **refutation of `get_is_pure` / view isolation** on the model of the code before fix fb6e64c: block 2 sees the
     value 204 its parent wrote for 3a5; after a `Get` of another account through the PARENT's view
     (block 1) block 2 no longer finds 3a5 (it would now fall back to the stale stable value). -/
 theorem heap_get_is_pure_refuted :
@@ -309,7 +330,7 @@ def persistedAfter (s : St) (l : Nat) : List (Nat × Nat) :=
   | .ok (some (s', _)) => s'.disk
   | _ => []
 
-/-- **refutation of persisted = view(stable)** on the model of the code as it is: block 1 wrote 204 for
+/-- **refutation of persisted = view(stable)** on the model of the code before fix fb6e64c: block 1 wrote 204 for
     account 3 (3a5) and `SetStableBlock(1)` persists it — unless some `Get` went through the CHILD's view
     (block 2) before: then `Collect(1)` on block 1's trie misses account 3 and it is NOT persisted. -/
 theorem heap_persist_refuted :
@@ -755,6 +776,23 @@ theorem utree_setStable {u : St} {a : ASt} (hr : URel E u a) {l : Nat} {b : Blk}
       ← get_refines q1, ← get_refines hr.cinv, m2 k]
   · intro k
     rw [h2.disk k, g2 k, get_refines hr.cinv]
+
+/-! non-vacuity of (d): the relation holds in an opened database, and a guarded run with a Put exists -/
+
+def uDemo : St := openDb [(0, 0)] [(7, 100)] (some (0, 0))
+
+example : URel encDemo uDemo (init 0 0 (fun k => [(7, 100)].lookup k)) :=
+  utree_inv_open encDemo _ _ 0 0 ⟨(0, 0), by simp, rfl⟩
+
+example : GuardedU encDemo uDemo [.block 1 (some 0) 1, .block 2 (some 0) 1, .get 2 7, .put 1 7 5, .stable 1] := by
+  refine ⟨trivial, trivial, trivial, ?_, trivial, trivial⟩
+  refine ⟨⟨1, 1, some 0, 0⟩, by decide, by decide, ?_⟩
+  intro ds hds d hd
+  have : collectTop (urun encDemo uDemo [.block 1 (some 0) 1, .block 2 (some 0) 1, .get 2 7]).heap 0 1 = .ok [] := by decide
+  have hds' : collectTop (urun encDemo uDemo [.block 1 (some 0) 1, .block 2 (some 0) 1, .get 2 7]).heap 0 1 = .ok ds := hds
+  rw [this] at hds'
+  cases hds'
+  cases hd
 
 end UTreeRefinement
 
